@@ -619,7 +619,7 @@ def api_oracle(o, known_spans=()) -> str | None:
             return f"span {(st, en)} is not inside the source (length {len(s)})"
         if text != s[st:en]:
             return f"Match.string {text!r} is not the slice {s[st:en]!r}"
-        if ln < 1 or ln > len(cs) or cs[ln - 1] + col != st or (ln < len(cs) and st >= cs[ln]):
+        if ln < 1 or ln > len(cs) or col < 0 or cs[ln - 1] + col != st or (ln < len(cs) and st >= cs[ln]):
             return f"lineno/col_offset {ln}:{col} is not the position of offset {st}"
     if not o["ends_ok"]:
         return "Match.start/end are not the ends of Match.span, or Match.root is not the first group"
